@@ -209,7 +209,7 @@ def one(job, args):
             res['detail'] = str(e)
             return res
         open(os.path.join(repo, rel), 'w').write(mutated)
-        missing = run_tests(repo)
+        missing = run_tests(repo, timeout=240)
         if missing:
             res['verdict'] = 'KILLED-BY-TESTS'
             res['detail'] = '%d pinned tests fail' % len(missing)
